@@ -18,6 +18,7 @@ REQUIRED_THEOREMS = [
     "C02.cached_call_correct_partial",
     "C02.cached_call_correct_from_partial",
     "C02.shared_entry_same_args_partial",
+    "C02.stored_under_own_id",
     "C02.fallback_collision_counterexample",
     "C02.shared_function_id_stale_reference_counterexample",
 ]
